@@ -875,6 +875,7 @@ pub fn parts() -> Vec<Box<dyn PartDyn>> {
             enumerate: Some(flood_enum),
             shrink_budget: 40,
             confirm_runs: 2,
+            fuzz: None,
         }),
         Box::new(Part::<Case> {
             name: "e2e",
@@ -886,6 +887,7 @@ pub fn parts() -> Vec<Box<dyn PartDyn>> {
             enumerate: None,
             shrink_budget: 200,
             confirm_runs: 2,
+            fuzz: None,
         }),
         Box::new(Part::<ProbeCase> {
             name: "collector",
@@ -897,6 +899,7 @@ pub fn parts() -> Vec<Box<dyn PartDyn>> {
             enumerate: None,
             shrink_budget: 2000,
             confirm_runs: 1,
+            fuzz: None,
         }),
     ]
 }
